@@ -858,7 +858,10 @@ class Extractor:
                     env.update(inl)
                 else:
                     env = self._kill_self_on_calls(st.value, env)
-                if len(st.targets) == 1 and isinstance(st.targets[0], ast.Name) and st.targets[0].id not in self.mutated and pure and inl is None:
+                if len(st.targets) == 1 and isinstance(st.targets[0], ast.Name) and isinstance(st.value, ast.Call) and dotted(st.value.func) in ("float", "int") and \
+                        len(st.value.args) == 1 and isinstance(st.value.args[0], ast.Name) and st.value.args[0].id == st.targets[0].id and st.targets[0].id not in env:
+                    pass      # `x = float(x)` on a parameter: the same number as a Python number (`lb, ub = float(lb), float(ub)` is left alone likewise)
+                elif len(st.targets) == 1 and isinstance(st.targets[0], ast.Name) and st.targets[0].id not in self.mutated and pure and inl is None:
                     env = dict(env)
                     env[st.targets[0].id] = _tuple_index_simplify(self._inline_pure(subst(st.value, env), env))
                 elif len(st.targets) == 1 and tgt_name and tgt_name.startswith("self.") and tgt_name.count(".") == 1 and pure and inl is None:
